@@ -35,6 +35,8 @@ Inductive ncterm := NcC (c : Z) | NcS (i : nat) (c : Z).       (* constant | siz
 Record arrdesc := mkArr { a_esz : Z; a_nr : nat; a_nc : ncterm }.
 (* reference entry of mj_validateReferences: array, count = sizes[r_cnt]*r_mul, target size, num array *)
 Record refdesc := mkRef { r_arr : nat; r_cnt : nat; r_mul : Z; r_tgt : nat; r_num : option nat }.
+(* entry of the required-reference list: array, count = sizes[q_cnt] *)
+Record reqdesc := mkReq { q_arr : nat; q_cnt : nat }.
 Record layout := mkLayout {
   l_hdr : list Z;          (* expected header ints: ID, sizeof(mjtNum), getnsize(), mj_version(), getnptr() *)
   l_nsize : nat;           (* number of size fields; the last one is nbuffer *)
@@ -48,6 +50,7 @@ Record layout := mkLayout {
   l_structs : list Z;      (* byte sizes of the struct blocks (opt, vis, stat, two flags) *)
   l_arrays : list arrdesc;
   l_refs : list refdesc;
+  l_reqs : list reqdesc;   (* MJMODEL_REFERENCES_REQUIRED: arrays whose entries must be >= 0 (no "none" value) *)
   l_mapchk : bool;         (* the loader compares the file's nnames_map with the value derived by mj_makeModel *)
   l_ref64 : bool }.        (* mj_validateReferences computes adr+num in 64 bits (else in int, wrapping) *)
 
@@ -77,7 +80,7 @@ Inductive reason :=
 | RHdrShort | RHdr (i : nat) | RTruncSizes
 | RSizeNeg (i : nat) | RSizeBig (i : nat) | RNonzero | RMapBig | RArrBig (k : nat)
 | RNbuffer | RMapField | RTruncStructs | RTruncArr (k : nat) | RTooLarge
-| RValNum (j : nat) | RValRef (j : nat).
+| RValNum (j : nat) | RValRef (j : nat) | RValReq (j : nat).
 (* Abort k: the truncation test of array k passed by wrap-around and bufread is called with a byte
    count that does not fit its int parameter (mjERROR or a wild memcpy in the C code) *)
 Inductive outcome := Ok (m : model) | Reject (r : reason) | Abort (k : nat).
@@ -212,6 +215,20 @@ Fixpoint validate_refs (wide : bool) (m : model) (j : nat) (refs : list refdesc)
     end
   end.
 
+(* second list of mj_validateReferences: entries that must not be negative *)
+Definition req_adrs (m : model) (q : reqdesc) : list Z :=
+  ints 4 (Z.to_nat (sz (m_sizes m) (q_cnt q))) (nth (q_arr q) (m_arrays m) []).
+Fixpoint validate_reqs (m : model) (j : nat) (reqs : list reqdesc) : option reason :=
+  match reqs with
+  | [] => None
+  | q :: tl => if forallb (fun a => 0 <=? a) (req_adrs m q) then validate_reqs m (S j) tl else Some (RValReq j)
+  end.
+Definition validate_all (L : layout) (m : model) : option reason :=
+  match validate_refs (l_ref64 L) m 0 (l_refs L) with
+  | Some e => Some e
+  | None => validate_reqs m 0 (l_reqs L)
+  end.
+
 (* ---------- mj_loadModelBuffer, instrumented: outcome, reads (offset, bytes) of the input
    buffer, writes into the model buffer, nbuffer ---------- *)
 
@@ -225,7 +242,7 @@ Definition decode_arrays (L : layout) (len : Z) (fsz : list Z) (plan : list (Z *
   | RA_ok p4 r4 blobs =>
     if negb (p4 =? len) then (Reject RTooLarge, rds, wrs) else
     let m := mkModel fsz sblobs blobs in
-    match validate_refs (l_ref64 L) m 0 (l_refs L) with
+    match validate_all L m with
     | Some e => (Reject e, rds, wrs)
     | None => (Ok m, rds, wrs)
     end
@@ -320,7 +337,7 @@ Definition wf_modelb (L : layout) (m : model) : bool :=
   lens_eq (l_structs L) (m_structs m) &&
   (zlen (encode L m) <=? INT_MAX) &&
   (sz (m_sizes m) (l_mapidx L) =? sz (alloc_sizes L (m_sizes m)) (l_mapidx L)) &&
-  match validate_refs (l_ref64 L) m 0 (l_refs L) with None => true | Some _ => false end.
+  match validate_all L m with None => true | Some _ => false end.
 
 (* ---------- helpers for the correspondence (executable side only) ---------- *)
 Fixpoint patch (l : list Z) (i : nat) (v : Z) : list Z :=
@@ -348,7 +365,7 @@ Definition reason_code (r : reason) : Z * Z :=
   | RSizeNeg i => (4, Z.of_nat i) | RSizeBig i => (5, Z.of_nat i) | RNonzero => (6, 0) | RMapBig => (7, 0)
   | RArrBig k => (8, Z.of_nat k) | RNbuffer => (9, 0) | RMapField => (18, 0) | RTruncStructs => (10, 0)
   | RTruncArr k => (11, Z.of_nat k) | RTooLarge => (12, 0)
-  | RValNum j => (13, Z.of_nat j) | RValRef j => (14, Z.of_nat j)
+  | RValNum j => (13, Z.of_nat j) | RValRef j => (14, Z.of_nat j) | RValReq j => (19, Z.of_nat j)
   end.
 Definition outcome_code (o : outcome) : Z * Z :=
   match o with Ok _ => (0, 0) | Reject r => reason_code r | Abort k => (99, Z.of_nat k) end.
